@@ -1,4 +1,5 @@
 """C02 - Storage backend and key layout never change an answer."""
+import os
 from props.corecase import file_to_coq, file_nontrivial, shrink_file
 
 ID = "C02"
@@ -34,4 +35,10 @@ def case_class(c):
 
 
 def shrink_candidates(c):
+    if os.environ.get("VERIF_NO_SHRINK"):
+        return iter(())
+    return _shrink_candidates(c)
+
+
+def _shrink_candidates(c):
     return shrink_file(c)
